@@ -59,6 +59,11 @@ pub fn adsb_me(rng: &mut Rng, tc: u8) -> [u8; 7] {
         fill_fields(&mut b, 6, me_layout(tc), rng);
     }
     b.set(1, 5, tc as u64);
+    if (1..=4).contains(&tc) && rng.chance(0.08) {
+        for (i, c) in text_pattern(rng, 8).iter().enumerate() {
+            b.set(9 + 6 * i, 6, *c as u64);
+        }
+    }
     if tc == 31 && rng.chance(0.7) {
         // reserved bits that the operational-status reader asserts to be zero
         b.set(6, 3, rng.below(2)); // airborne / surface
@@ -74,7 +79,40 @@ pub fn adsb_me(rng: &mut Rng, tc: u8) -> [u8; 7] {
     o
 }
 
+/// Character fields as whole-field patterns: a reader that trims, pads or indexes the decoded text sees its edge
+/// cases only when *every* position holds a space / the same code / one character among spaces
+pub fn text_pattern(rng: &mut Rng, n: usize) -> Vec<u8> {
+    let mut c = vec![32u8; n];
+    match rng.below(8) {
+        0 => {}                                  // all spaces
+        1 => c = vec![0u8; n],                   // all code 0
+        2 => c = vec![63u8; n],                  // all code 63
+        3 => c[0] = rng.range(1, 26) as u8,      // one letter, then padding
+        4 => c[n - 1] = rng.range(48, 57) as u8, // padding, then one digit
+        5 => {
+            let k = rng.below(n as u64) as usize;
+            c[k] = rng.below(64) as u8; // spaces with one arbitrary code
+        }
+        6 => {
+            let x = rng.below(64) as u8;
+            c = vec![x; n]; // one code everywhere
+        }
+        _ => {
+            for x in c.iter_mut() {
+                *x = *rng.pick(&[32u8, 32, 0, 1, 26, 48, 57, 63]);
+            }
+        }
+    }
+    c
+}
+
 fn callsign_codes(rng: &mut Rng, valid: bool) -> [u8; 8] {
+    if rng.chance(0.08) {
+        let t = text_pattern(rng, 8);
+        let mut c = [32u8; 8];
+        c.copy_from_slice(&t);
+        return c;
+    }
     let mut c = [32u8; 8];
     let n = rng.range(1, 8) as usize;
     for (i, x) in c.iter_mut().enumerate() {
@@ -144,6 +182,20 @@ pub fn commb_for(rng: &mut Rng, reg: &str, ac13: u16) -> [u8; 7] {
             b.set(1, 8, 0x20);
             for (i, c) in callsign_codes(rng, strict).iter().enumerate() {
                 b.set(9 + 6 * i, 6, *c as u64);
+            }
+        }
+        "bds21" if rng.chance(0.1) => {
+            // whole-field patterns, status bits set
+            b.set(1, 1, 1);
+            for (i, c) in text_pattern(rng, 7).iter().enumerate() {
+                b.set(2 + 6 * i, 6, *c as u64);
+            }
+            let st2 = rng.chance(0.5);
+            b.set(44, 1, st2 as u64);
+            if st2 {
+                for (i, c) in text_pattern(rng, 2).iter().enumerate() {
+                    b.set(45 + 6 * i, 6, *c as u64);
+                }
             }
         }
         "bds21" => {
